@@ -225,8 +225,10 @@ func (s *RegistrationManager) PrintAndReset(logger *log.Logger) {
 		ndns, float64(ndns)/epochDur*1000,
 	)
 
+	s.ingestChanMu.RLock()
 	l := len(s.ingestChan)
 	c := cap(s.ingestChan)
+	s.ingestChanMu.RUnlock()
 	logger.Infof("reg-buf-stats: %d %.3f/s %d %.3f%% %.3f/s %d %d %d/%d %.3f%%",
 		atomic.LoadInt64(&s.newIngestMessages),
 		float64(atomic.LoadInt64(&s.newIngestMessages))/epochDur*1000, // x1000 convert /ms to /s
